@@ -32,6 +32,7 @@ structure St where
   rc : Hist.St
   dead : Bool
   fixed : Bool                   -- which loop: true = repaired code (default), false = as found (`variant asis`)
+  d61 : Bool                     -- operand resolution of fixes/D61.patch (default); false with `variant asis` / `variant main`
   rejected : Bool                -- the `cft` op answered BadParameter (fixes/D60.patch): `f` and `rf` do not exist
 
 def readerQos : Hist.Qos :=
@@ -45,7 +46,7 @@ def readerQos : Hist.Qos :=
 
 def init : St :=
   { pre := 0, ty := none, filter := none, hold := false, coalesce := 0, stash := none, held := [],
-    rf := Hist.St.init readerQos true, rc := Hist.St.init readerQos true, dead := false, fixed := true, rejected := false }
+    rf := Hist.St.init readerQos true, rc := Hist.St.init readerQos true, dead := false, fixed := true, d61 := true, rejected := false }
 
 def inI32 (v : Int) : Bool := decide (-2147483648 ≤ v ∧ v ≤ 2147483647)
 
@@ -91,7 +92,8 @@ def addTo (h : Hist.St) (c : Change Tag) : Hist.St :=
 
 /-- one datagram with the given changes reaches P2: the batch loop of the reader on the filtered topic -/
 def batchToRf (s : St) (batch : List (Change Tag)) : St × Bool :=
-  let out := if s.fixed then loopFixed s.filter batch else loopAsIs s.filter batch
+  let out := if s.fixed then (if s.d61 then loopFixed s.filter batch else loopFixedOld s.filter batch)
+             else loopAsIsOld s.filter batch
   match out with
   | .ok l => ({ s with rf := l.foldl addTo s.rf }, false)
   | .panic l => ({ s with rf := l.foldl addTo s.rf, dead := true }, true)
@@ -213,7 +215,8 @@ def dataStep (s : St) (ty : Ty) (ts : List String) : St × String :=
 def step (s : St) (line : String) : St × String :=
   let ts := toks line
   if ts == ["reset"] then (init, "ok")
-  else if ts == ["#", "variant", "asis"] then ({ s with fixed := false }, "ok")
+  else if ts == ["#", "variant", "asis"] then ({ s with fixed := false, d61 := false }, "ok")
+  else if ts == ["#", "variant", "main"] then ({ s with d61 := false }, "ok")
   else if ts.isEmpty || ts.head?.any (fun t => t.startsWith "#") then (s, "ok")
   else if s.dead then (s, "POISONED")
   else if s.pre < 13 then
@@ -227,7 +230,7 @@ def step (s : St) (line : String) : St × String :=
         let f : Filter := { expr := (joinSp (e :: es)).toList, params := parseParams p }
         -- the as-found variant accepts every filter (D60)
         if s.fixed && !(match s.ty with
-            | some ty => validate (typeDesc ty) f
+            | some ty => if s.d61 then validate (typeDesc ty) f else validateOld (typeDesc ty) f
             | none => false) then ({ s with pre := 7, rejected := true }, "err:BadParameter")
         else ({ s with pre := 7, filter := some f }, "ok")
       | _ => (s, "bad-op")
